@@ -21,6 +21,18 @@ replay : every real dump and every force triple is also compared with a binary64
          (class FloatTree; boxes/indices/counts exactly, centre of mass and sums to a few ulps) - the reference on
          arbitrary doubles; mode G runs TSNE::computeGradient / evaluateError of tsne.hpp (the caller of the tree)
          and checks the gradient against the replay, the exact all-pairs repulsion (theta = 0) and the proved bounds.
+float  : coq/QuadTree_Float_Model.v = containsPoint and the child-box arithmetic of subdivide() in Coq primitive floats
+         (binary64, bit for bit).  On the dumps of the corpus, of every tolerance-stream case, of every scaled case and of
+         every 8th other case one coqc run (vm_compute) checks: the four dumped child boxes of every internal cell are the
+         model's; the REAL Cell::containsPoint of every cell on every data point (printed by the harness) is the model's
+         fcontains; the list of cracks (cell accepts, no child accepts) equals the one Python computes.  The witnesses of
+         the theorems children_cover_binary64_refuted / phantom_mass_binary64_refuted must be present in the real dumps
+         of the two F25 corpus cases.  A tolerance-stream failure is attributed to the known finding F25 only if this
+         model finds a crack in the real dump.
+scale  : `scale` = a case of the ordinary families and its copy times 2^k (k = +-30 .. +-300): both real trees must equal
+         the exact model and each other up to the exact factor; `scale_mixed` = a tiny cluster (spacing down to 2^-300)
+         inside a huge box (half-size up to 2^300), up to 600 levels deep.  An absolute threshold (depth cap, epsilon
+         compare) shows as a mismatch with the model.
 stream2: "tolerance stream" (a TEST, labelled so in the evidence): mean-centred constructor
          QuadTree(Y, N) on random doubles and explicit non-dyadic roots with points one ulp from the
          split lines; checked on the dump alone (nothing lost, masses add up, isCorrect, theta=0 sums
@@ -54,8 +66,18 @@ TRUSTED = [
     "g++ ASan/UBSan as the memory-safety observer",
     "checks/c18.py: hex-float -> Fraction conversion, rounding-bound comparison, float re-evaluation of "
     "add_summary over the cell list printed by the extracted forces_cells (forces_fold_cells proves the fold)",
-    "binary64 rounding of x -/+ .5*hw on non-dyadic boxes is NOT covered by the proof (exact arithmetic); "
-    "the tolerance stream tests it",
+    "binary64: the box arithmetic (containsPoint, child boxes x -/+ .5*hw) is modelled bit for bit in Coq primitive "
+    "floats (QuadTree_Float_Model.v); the crack (finding F25) is a theorem about that model "
+    "(children_cover_binary64_refuted, phantom_mass_binary64_refuted), its absence on grid inputs with headroom is a "
+    "theorem (children_cover_binary64_exact_inputs, no_crack_below_grid_root; Flocq 4.1 from user-contrib relates the "
+    "primitives to real arithmetic).  Axioms listed by Print Assumptions for these: the PrimFloat/PrimInt63 primitives, "
+    "Coq.Floats.FloatAxioms (Prim2SF_valid, SF2Prim_Prim2SF, Prim2SF_SF2Prim, add_spec, sub_spec, mul_spec, ltb_spec), "
+    "ClassicalDedekindReals.sig_forall_dec / sig_not_dec, FunctionalExtensionality.functional_extensionality_dep, "
+    "Classical_Prop.classic.  The rest of the tree in binary64 (centre of mass, force sums, which leaf a point ends in) "
+    "is NOT covered by a proof; the tolerance stream and the Python binary64 replay test it",
+    "coqc run inside the check (vm_compute of QuadTree_Float_Model.fcase_* on the dumps of the real trees, hex float "
+    "literals written by checks/c18.py, result parsed from coqc's output); the real containsPoint matrix is printed by "
+    "harness/c18.cpp (Cell::containsPoint of every cell on every data point)",
     "class FloatTree in checks/c18.py: the shipped insert/subdivide/computeNonEdgeForces and the two loops of tsne.hpp "
     "replayed in Python doubles (same operations, same order; assumes g++ emits no FMA / x87 excess precision, which "
     "holds for the flags vlib uses); reference for arbitrary doubles and for attributing a tolerance-stream failure to "
@@ -452,9 +474,16 @@ def gen_tol_cases(rng, count):
             sc = 10.0 ** rng.randint(-6, 3)
             off = rng.choice([0.0, 1.0, 1e3]) * sc
             pts = [(rng.gauss(0, 1) * sc + off, rng.gauss(0, 1) * sc + off) for _ in range(n)]
+            if rng.random() < 0.4 and n >= 3:
+                # the extreme point of an axis is the first or the last sample (the ends of the min/max scan of
+                # QuadTree(Y, N)), on the long or on the short side of the mean
+                j, ax, sgn = rng.choice([0, n - 1]), rng.choice([0, 1]), rng.choice([-1, 1])
+                q = list(pts[j])
+                q[ax] = off + sgn * sc * rng.uniform(3, 6)
+                pts[j] = tuple(q)
             if rng.random() < 0.3:
                 pts += [pts[0]] * rng.randint(1, 3)
-            cases.append({"kind": "tol_auto", "mode": "A", "root": ["0:0"] * 4,
+            cases.append({"kind": "tol_auto", "mode": "A", "fm": True, "root": ["0:0"] * 4,
                           "pts": [[me(a), me(b)] for a, b in pts], "order": list(range(len(pts))),
                           "thetas": ["0:0", "1:-1"], "queries": list(range(min(len(pts), 6))), "short": False})
         else:
@@ -477,7 +506,7 @@ def gen_tol_cases(rng, count):
                 pts.append((px, py))
             order = list(range(len(pts)))
             rng.shuffle(order)
-            cases.append({"kind": "tol_ulp", "mode": "E", "root": [me(x), me(y), me(hw), me(hh)],
+            cases.append({"kind": "tol_ulp", "mode": "E", "fm": True, "root": [me(x), me(y), me(hw), me(hh)],
                           "pts": [[me(a), me(b)] for a, b in pts], "order": order,
                           "thetas": ["0:0", "1:-1"], "queries": list(range(min(len(pts), 6))), "short": False})
     return cases
@@ -916,7 +945,7 @@ def float_model_batch(ctx, cases, impls, stats):
           and len(impls[k]["P"]) == len(impls[k]["cells"])]
     if not ks:
         return {}
-    src = ["From Coq Require Import Floats List.\nFrom TK Require Import QuadTree_Float_Model QuadTree_Proof_Float.\n"
+    src = ["From Coq Require Import Floats List Bool.\nFrom TK Require Import QuadTree_Float_Model QuadTree_Proof_Float.\n"
            "Import ListNotations.\nLocal Open Scope float_scope.\n"]
     for k in ks:
         c, d = cases[k], impls[k]
@@ -928,7 +957,7 @@ def float_model_batch(ctx, cases, impls, stats):
         nodes = []
         for ci, ch in enumerate(kids):
             if ch is not None:
-                nodes.append("(nth %d cells%d fcell0, [%s])" % (ci, k, "; ".join("nth %d cells%d fcell0" % (j, k) for j in ch)))
+                nodes.append("(%s, [%s])" % (fm_cell(cells[ci]), "; ".join(fm_cell(cells[j]) for j in ch)))
         src.append("Definition nodes%d : list fnode := [%s].\n" % (k, ";\n ".join(nodes)))
         wit = FM_WITNESS.get(c.get("corpus_name"))
         w = "true"
@@ -955,7 +984,7 @@ def float_model_batch(ctx, cases, impls, stats):
     out = {}
     for k, ch in zip(ks, chunks):
         body = re.split(r"^\s+: ", ch, flags=re.M)[0]
-        body = " ".join(body.split()).replace(";", ",").replace("true", "True").replace("false", "False")
+        body = " ".join(body.split()).replace("%nat", "").replace(";", ",").replace("true", "True").replace("false", "False")
         try:
             ok, wit, cracks, contains = ast.literal_eval(body)
         except (ValueError, SyntaxError) as ex:
@@ -1067,6 +1096,14 @@ def check_impl_alone(ctx, c, d, pts, stats, report):
             if b != 1 and fcontains(cells[0], (float(pts[i][0]), float(pts[i][1]))):
                 report("insert(%d) returns false although the root box contains the point" % i)
                 break
+    if c["mode"] == "A":
+        # Properties_C18.auto_root_in_root_box: the root box QuadTree(Y, N) computes contains all N points (the slack
+        # 1e-5 exceeds the rounding of mean/min/max by orders of magnitude at the magnitudes generated here)
+        for i in c["order"]:
+            if not fcontains(cells[0], (float(pts[i][0]), float(pts[i][1]))):
+                report("QuadTree(Y, N): point %d = (%r, %r) lies outside the root box %r the constructor computed "
+                       "(auto_root_in_root_box), so fill() cannot insert it" % (i, float(pts[i][0]), float(pts[i][1]), cells[0][1:5]))
+                break
     if d["ok"] != 1:
         report("isCorrect() returns false")
     stored = [cell[6] for cell in cells if cell[5] > 0]
@@ -1131,7 +1168,13 @@ def check_impl_alone(ctx, c, d, pts, stats, report):
                 if not close3(f, e, 1e-9 * e[2] + 1e-300):
                     report("theta = 0, query %d: tree sums %r differ from the all-pairs sums %r" % (qi, f, e))
                     break
+            # theta = 2^-60 is "below theta0" (forces_eventually_exact) only if no cell is 2^-60 times smaller than a
+            # distance: smallest internal half-size against the root diagonal
+            inner = [max(cell[3], cell[4]) for cell, ch in zip(cells, kids) if ch is not None]
+            tiny_ok = (not inner) or min(inner) > 2.0 ** -57 * max(cells[0][3], cells[0][4])
             for ti, th in enumerate(ths):
+                if not tiny_ok:
+                    break
                 if 0 < th <= Fraction(1, 1 << 59) and d["F"][(ti, qi)] != f:
                     report("theta = 2^-60 does not reproduce theta = 0 for query %d: %r vs %r" % (qi, d["F"][(ti, qi)], f))
                     break
@@ -1226,6 +1269,13 @@ def expected_forces(c, pts, m, kids, stats):
             for k in ids:
                 cum, c0, c1 = cells[k][7], cells[k][8], cells[k][9]
                 bx, by = float(p[0] - c0), float(p[1] - c1)
+                if cum > 1:
+                    # the C++ works with the ROUNDED centre of mass (error <= com_bound, relative to the magnitude of the
+                    # coordinates, not to the distance): a cluster far from the origin seen from nearby has sums that
+                    # differ from the exact ones by far more than 1e-9; compared with the binary64 replay only
+                    ek = float(com_bound(cells[k], cum))
+                    if ek > 1e-11 * math.sqrt(bx * bx + by * by):
+                        robust = False
                 q = 1.0 / (1.0 + bx * bx + by * by)
                 f0.append(cum * q * q * bx)
                 f1.append(cum * q * q * by)
@@ -1856,14 +1906,17 @@ def run(ctx):
         evaluations=n + searched, distinct_nontrivial=len(distinct),
         rule="point sets from corpus + families generic dyadic / clustered / collinear (incl. on split lines) / coincident "
              "(2..5 copies) / on cell edges and corners / magnitudes 2^-40..2^0 / points outside the root / exact ties of "
-             "the summary criterion, random insertion orders, every permutation of small mixed sets, six root boxes "
+             "the summary criterion / the same case times 2^k, k = +-30..+-300 (scale) / tiny cluster in a huge box up to "
+             "600 levels deep (scale_mixed), random insertion orders, every permutation of small mixed sets, six root boxes "
              "(square, rectangular, offset); thetas 0, 2^-60, 2^-20, 1/64, 1/8, 1/2, 1, 2.  Exact stream: every cell of the "
              "real tree equals the extracted model's (boxes, size, index, count, cum_size exactly; center_of_mass and "
              "force sums under a rounding bound), the extracted struct_okb runs on the real dump; on the dump itself: exact means, "
              "count sandwich per cell, theta=0 vs O(N^2) sums, proved (9 theta + 8 theta^2) bound, theta=2^-60 = theta=0, "
              "order independence between real trees, insert false <=> outside the root.  Tolerance stream "
              "(tol_auto, tol_ulp; a TEST): mean-centred constructor on random doubles and points one ulp from split "
-             "lines, checked on the dump alone and against a binary64 replay of the shipped algorithm.  grad: "
+             "lines, first/last sample extreme on an axis, checked on the dump alone and against a binary64 replay of the "
+             "shipped algorithm.  Binary64 model (Coq primitive floats, one coqc run per batch): child boxes and every "
+             "containsPoint decision of the real tree on corpus + tolerance + scaled + every 8th case.  grad: "
              "TSNE::computeGradient / evaluateError on random, dyadic and coincident maps.  non-trivial = at least 3 insertions and 2 distinct points; distinct by "
              "hash of (mode, root, points, order).",
         samples=[{k: c[k] for k in ("kind", "mode", "root", "pts", "order")} for c in
